@@ -190,14 +190,19 @@ def run_cli(res, vh, exe):
             src = os.path.join(d, "prog.asm")
             open(src, "w").write(text)
             # a name that is not given is derived from the SOURCE name, whatever the other one is
-            paths = {"code": os.path.join(d, "out", "f.hex") if "o" in given else os.path.join(d, "prog.hex"),
-                     "eeprom": os.path.join(d, "out", "e.hex") if "e" in given else os.path.join(d, "prog.eep.hex")}
-            args = ["-s", src] + (["-o", paths["code"]] if "o" in given else []) + (["-e", paths["eeprom"]] if "e" in given else [])
+            # (file names are byte strings: blanks, non-ASCII characters and bytes that are no valid UTF-8 are names like any other)
+            fn, en = [("f.hex", "e.hex"), ("f l.hex", "\u20ac.hex"), (b"f\xfc.hex", b"\xff.hex")][len(jobs) % 3]
+            dec = lambda b: b.decode("utf-8", "surrogateescape")
+            op = os.path.join(os.fsencode(d), b"out", fn if isinstance(fn, bytes) else os.fsencode(fn))
+            ep = os.path.join(os.fsencode(d), b"out", en if isinstance(en, bytes) else os.fsencode(en))
+            paths = {"code": dec(op) if "o" in given else os.path.join(d, "prog.hex"),
+                     "eeprom": dec(ep) if "e" in given else os.path.join(d, "prog.eep.hex")}
+            args = ["-s", src] + (["-o", op] if "o" in given else []) + (["-e", ep] if "e" in given else [])
             p = subprocess.run([binary] + args, cwd=d, env=env, stdout=subprocess.PIPE, stderr=subprocess.STDOUT, text=True, timeout=120)
             l = lib[name]
             for k in ("code", "eeprom"):
                 img = bytes.fromhex(l[k]) if l["kind"] == "OK" else b""
-                desc = dict(source=text, args=" ".join(a.replace(d, "<dir>") for a in args), image=k)
+                desc = dict(source=text, args=" ".join((a.decode("utf-8", "backslashreplace") if isinstance(a, bytes) else a).replace(d, "<dir>") for a in args), image=k)
                 if img and not os.path.exists(paths[k]):
                     res.failing.append(dict(interface="avra-rs binary", input=desc, expected="a HEX file holding the %d-byte %s image" % (len(img), k),
                                             observed="no file; exit %d; %s" % (p.returncode, p.stdout[-120:]), cls="cli-file-missing"))
